@@ -26,7 +26,7 @@ LEVEL_TEXT = (
     "truncating / %, undefined behaviour = no value), the model of ppci's pipeline (semantic typing with implicit casts, "
     "ConstantExpressionEvaluator, CContext.pack) yields exactly the little-endian image of that value converted to the destination type "
     "for a global initialiser of each integer type, the value converted to the promoted controlling type for a case label, and the "
-    "value itself for an enumerator and an array size; the typing inserted by the semantics equals C's typing for every such "
+    "value itself for an enumerator and an array size; every enumerator of an enumerator LIST gets its explicit value or the previous value plus one (first 0); the typing inserted by the semantics equals C's typing for every such "
     "expression; pack never raises for any integer and any non-float type it accepts (integer basic types, enums, pointers); enum and pointer objects get the image of the converted value. Proved after four fix commits in /repo (evaluator/pack; integer typing; ?: in is_const_expr; array dimension type); the pre-fix "
     "code is kept as a model with Lean-proved counterexamples. The model is hand-written; its operator tables, ranks, sizes, type sets "
     "and pack formats are re-checked (decide) against a dump of the live objects on every run, and it is tied to the source by a "
@@ -429,8 +429,129 @@ def check(ctx):
             ctx.sample({"decl": X.decl_for(cases[k][0], 0, cases[k][1], cases[k][2])[0], "impl": impl[k], "model": model[k], "spec": spec[k]})
     ctx.extra_cov["exhaustive"] = False
     ctx.extra_cov["defined_fraction"] = round(sum(1 for s in spec if s != "ok none") / max(1, len(spec)), 3)
+    check_enum_lists(ctx)
     if ctx.thorough:
         validate_spec_with_gcc(ctx, cases, spec, stype)
+
+
+# ----------------------------------------------------------------------------------------------
+# enumerator LISTS (C11 6.7.2.2p3): explicit values at every position (0, +-1, boundaries, expressions that
+# evaluate to 0) followed by implicit successors; observed through initialisers and array sizes
+ZERO_EXPRS = [L(0), B("sub", L(4), B("mul", L(2), L(2))), B("sub", L(1), L(1)), ("U", "lnot", L(5)), L(0, "u"),
+              B("mul", L(0), L(7)), B("band", L(6), L(1)), ("Q", L(0), L(3), L(0)), K("char", L(256))]
+
+ENUM_LIST_CORPUS = [
+    (L(3), None, L(0), None),                                   # enum { RED = 3, GREEN, NONE = 0, FIRST }
+    (L(7), B("sub", L(4), B("mul", L(2), L(2))), None),         # A = 7, B = 4 - 2*2, C
+    (None, None, L(0), None), (L(5), L(0)), (neg(L(1)), None, None), (L(0), None), (None, L(0), None, L(0), None),
+    (L(2147483646), None), (neg(L(2147483648)), None), (L(1), ("U", "lnot", L(1)), None, None),
+]
+
+
+def gen_enum_list(rng):
+    n = rng.randint(2, 6)
+    items = []
+    for k in range(n):
+        r = rng.random()
+        if r < 0.45:
+            items.append(None)
+        elif r < 0.70:
+            items.append(rng.choice(ZERO_EXPRS))
+        elif r < 0.85:
+            items.append(rng.choice([L(1), neg(L(1)), L(2), L(100), L(2147483646), neg(L(2147483647)), L(65535)]))
+        else:
+            items.append(X.gen_expr(rng, 2))
+    if all(i is None for i in items[1:]):
+        items[rng.randrange(1, n)] = rng.choice(ZERO_EXPRS)      # an explicit 0 after a non-zero count
+        if items[0] is None:
+            items[0] = L(rng.randint(1, 9))
+    return tuple(items)
+
+
+def enum_list_decl(idx, items, values=None):
+    names = [f"n{idx}_{k}" for k in range(len(items))]
+    body = ", ".join(nm + (f" = {X.render_c(e)}" if e is not None else "") for nm, e in zip(names, items))
+    txt = f"enum EL{idx} {{ {body} }};" + "".join(f" long long w{idx}_{k} = {nm};" for k, nm in enumerate(names))
+    sized = []
+    for k, v in enumerate(values or []):
+        if 0 < v <= 4096:
+            txt += f" char z{idx}_{k}[{names[k]}];"
+            sized.append(k)
+    return txt, sized
+
+
+def check_enum_lists(ctx):
+    lists = list(ENUM_LIST_CORPUS) + [gen_enum_list(ctx.rng) for _ in range(400 if ctx.thorough else 60)]
+    lists = list(dict.fromkeys(lists))
+    reqs = []
+    for items in lists:
+        p = " ".join("I" if e is None else "X " + X.proto(e) for e in items)
+        reqs += ["elist " + p, "selist " + p]
+    rep = ctx.driver("C27", reqs)
+    if "bad-op" in rep:
+        raise common.BrokenCheck("driver rejected an enumerator list")
+    gcc_cases = []
+    for idx, items in enumerate(lists):
+        model, spec = rep[2 * idx], rep[2 * idx + 1]
+        ctx.count("eval_elist")
+        vals = json.loads(spec[3:]) if spec not in ("ok none",) else None
+        decl, sized = enum_list_decl(idx, items, vals)
+        st, m = X.compile_unit(decl + "\n")
+        if st == "ok":
+            got = []
+            for k in range(len(items)):
+                b = X.var_bytes(m, f"w{idx}_{k}")
+                got.append(int.from_bytes(b, "little", signed=True) if isinstance(b, (bytes, bytearray)) else None)
+            impl = "ok [" + ",".join(str(v) for v in got) + "]"
+            sizes = {k: X.var_amount(m, f"z{idx}_{k}") for k in sized}
+        else:
+            impl = "err CompilerError" if st == "diag" else "err " + st.split(":", 1)[1]
+            sizes = {}
+        case = {"decl": decl, "items": reqs[2 * idx][6:]}
+        mcanon = model
+        if model.startswith("ok ["):       # observed through `long long`: compare modulo 2^64
+            mv = [((v + (1 << 63)) % (1 << 64)) - (1 << 63) for v in json.loads(model[3:])]
+            mcanon = "ok [" + ",".join(str(v) for v in mv) + "]"
+        if impl != mcanon:
+            ctx.disagree("enum-list", case, impl, model)
+        if vals is not None:
+            ctx.nontrivial(("elist", reqs[2 * idx]))
+            bad_sizes = {k: v for k, v in sizes.items() if v != vals[k]}
+            if impl != spec or bad_sizes:
+                what = "internal-error:" + impl.split()[1] if impl.startswith("err") and impl != "err CompilerError" else (
+                    "rejected" if impl.startswith("err") else "wrong-value")
+                pos = next((k for k, e in enumerate(items) if e is not None and k > 0), 0)
+                ctx.fail(f"elist:{what}", f"`{decl[:200]}` -> enumerators {impl}{' array sizes ' + str(bad_sizes) if bad_sizes else ''}, "
+                         f"C prescribes {spec}", case, impl=impl, model=model, spec=spec, first_explicit_after_start=pos)
+            gcc_cases.append((idx, items, vals))
+    if ctx.thorough and gcc_cases:
+        # Spec.CInt.enumValues against gcc: one program printing every enumerator
+        import os
+        import subprocess
+        import tempfile
+        lines = ["#include <stdio.h>"]
+        body = []
+        for idx, items, vals in gcc_cases:
+            names = [f"n{idx}_{k}" for k in range(len(items))]
+            lines.append("enum EL%d { %s };" % (idx, ", ".join(nm + (f" = {X.render_c(e)}" if e is not None else "") for nm, e in zip(names, items))))
+            body.append('printf("' + " ".join(["%lld"] * len(names)) + '\\n", ' + ", ".join(f"(long long){nm}" for nm in names) + ");")
+        lines += ["int main(void) {"] + body + ["return 0; }"]
+        d = tempfile.mkdtemp(prefix="c27gcc")
+        try:
+            open(os.path.join(d, "t.c"), "w").write("\n".join(lines) + "\n")
+            p = subprocess.run(["gcc", "-std=c11", "-w", "-o", os.path.join(d, "t"), os.path.join(d, "t.c")], capture_output=True, text=True)
+            if p.returncode != 0:
+                ctx.disagree("spec-vs-gcc", {"what": "enumerator lists"}, "gcc: " + p.stderr[-300:], "spec: defined")
+            else:
+                out = subprocess.run([os.path.join(d, "t")], capture_output=True, text=True).stdout.splitlines()
+                for (idx, items, vals), line in zip(gcc_cases, out):
+                    ctx.count("eval_gcc")
+                    if [int(x) for x in line.split()] != vals:
+                        ctx.disagree("spec-vs-gcc", {"enum": enum_list_decl(idx, items)[0]}, "gcc " + line, "spec " + str(vals))
+        finally:
+            for fn in os.listdir(d):
+                os.unlink(os.path.join(d, fn))
+            os.rmdir(d)
 
 
 def validate_spec_with_gcc(ctx, cases, spec, stype):
